@@ -109,3 +109,44 @@ R.contract(f'{TK}:_task_result', self_type='Inst', params={}, returns='Val',
     raises={'TaskError': [C("isnone(self._results_map) or (Inst_to_Task(self) not in unopt(self._results_map))",
                             'it raises exactly when this run has no result for the task (e.g. the dependency failed)', serves=('C02', 'C10'))]},
     frame=[])
+
+# ---- normalisation: immutable_param_value (tasks.py:33-45)
+R.macro('str_key', ['k'], "is_PStr(k) or (is_PEnum(k) and (emix(k) == Mix.STR))")     # isinstance(key, str)
+R.recfunc('norm', {'v': 'PV'}, 'PV',
+    "ite(is_PList(v), PTuple(norm_list(litems(v))), ite(is_PTuple(v), PTuple(norm_list(titems(v))), "
+    "ite(is_PDict(v), PFrozen(norm_ents(dents(v))), ite(is_PFrozen(v), PFrozen(norm_ents(fents(v))), v))))")
+R.recfunc('norm_list', {'l': 'PL'}, 'PL', "ite(is_LNil(l), l, LCons(norm(head(l)), norm_list(tail(l))))")
+R.recfunc('norm_ents', {'e': 'PE'}, 'PE', "ite(is_ENil(e), e, ECons(ekey(e), norm(evalue(e)), norm_ents(erest(e))))")
+R.recfunc('normable', {'v': 'PV'}, 'Bool',
+    "((is_PList(v) and normable_list(litems(v))) or (is_PTuple(v) and normable_list(titems(v))) or (is_PDict(v) and normable_ents(dents(v))) "
+    "or (is_PFrozen(v) and normable_ents(fents(v))) or is_scalar(v) or is_PTask(v))")
+R.recfunc('normable_list', {'l': 'PL'}, 'Bool', "is_LNil(l) or (normable(head(l)) and normable_list(tail(l)))")
+R.recfunc('normable_ents', {'e': 'PE'}, 'Bool', "is_ENil(e) or (str_key(ekey(e)) and normable(evalue(e)) and normable_ents(erest(e)))")
+R.recfuncs['imm_ents']['body'] = "is_ENil(e) or (str_key(ekey(e)) and immutable(evalue(e)) and imm_ents(erest(e)))"
+NORMF = ('norm', 'norm_list', 'norm_ents', 'normable', 'normable_list', 'normable_ents')
+
+R.contract('labtech.utils:ensure_dict_key_str', params={'value': 'PV', 'exception_type': 'ExcCls'}, returns='PV', pure=True, key_check=True,
+    ensures=["result == value", "str_key(value)"], raises={'Exception': ["not str_key(value)"]}, frame=[],
+    note='identity on string keys; raises the given exception type otherwise')
+R.contract(f'{TK}:immutable_param_value',
+    params={'key': 'Str', 'value': 'PV'}, returns='PV', pure=True,
+    spec='norm', lift={'map_list': 'norm_list', 'map_ents': 'norm_ents'},
+    lift_raises={'TaskError': {'list': 'normable_list', 'ents': 'normable_ents'}},
+    reveal=NORMF,
+    ensures=[C("normable(value)", 'it returns only for supported values: scalars, enums, tasks, and lists/tuples/string-keyed dicts of them at every depth', serves=('C15',)),
+             C("result == norm(value)", 'lists become tuples and dicts become frozendicts at every depth; everything else is unchanged', serves=('C15',))],
+    raises={'TaskError': [C("not normable(value)", 'TaskError exactly for an unsupported value or a non-string dict key somewhere inside', serves=('C15',))]},
+    frame=[])
+
+# ---- task construction and copying (tasks.py:48-59, 88-104).  These three functions set attributes whose NAMES are computed
+# (object.__setattr__(self, f.name, ...), state dicts): outside PyVC's fragment.  Their contracts are stated from the property;
+# the check decides them with the bounded native stand-in replay/values.py (never counted as proved).
+R.contract(f'{TK}:_task_post_init', self_type='Inst', params={},
+    ensures=[C("forall('Field', lambda f: implies(f in fields_of(self), immutable(fieldval(self, f))))", 'every field holds its normalised value', serves=('C15',))],
+    raises={'TaskError': []}, frame=['Inst.*'])
+R.contract(f'{TK}:_task__getstate__', self_type='Inst', params={}, returns='StateDict',
+    ensures=[C("state_has_no_results(result)", 'the pickled state carries the fields, _lt, _is_task and cache_key, but no results map, context or result_meta', serves=('C15', 'C16'))], frame=[])
+R.func('state_has_no_results', ['StateDict'], 'Bool')
+R.contract(f'{TK}:_task__setstate__', self_type='Inst', params={'state': 'StateDict'},
+    ensures=[C("post_init_derived(self)", 'the copy again carries whatever the task type\'s post_init derives', serves=('C15',))], frame=['Inst.*'])
+R.func('post_init_derived', ['Inst'], 'Bool')
